@@ -18,7 +18,7 @@ pub struct Suite {
 }
 
 fn bounds(depth: usize, aborts: u8, silent: u8, late: u8, items: u8) -> Bounds {
-    Bounds { depth, items_per_stream: items, max_aborts: aborts, max_silent: silent, max_late: late, abort_before_start: true }
+    Bounds { depth, items_per_stream: items, max_aborts: aborts, max_silent: silent, max_late: late, abort_before_start: true, max_spawn_more: 0 }
 }
 
 fn s0() -> S {
@@ -116,7 +116,7 @@ fn scale_suites(hosts: &[HostKind]) -> Vec<Suite> {
             if name == "scale/silent-pairs" && host.is_core() {
                 continue;
             }
-            v.push(Suite { name, host, programs: progs.clone(), bounds: Bounds { depth: 600, items_per_stream: 2, max_aborts: 0, max_silent: silent, max_late: 0, abort_before_start: false } });
+            v.push(Suite { name, host, programs: progs.clone(), bounds: Bounds { depth: 600, items_per_stream: 2, max_aborts: 0, max_silent: silent, max_late: 0, abort_before_start: false, max_spawn_more: 0 } });
         }
     }
     v
@@ -368,6 +368,17 @@ fn suites_tree(id: &str, tier: Tier) -> Vec<Suite> {
                     bp.push(P::Trigger(s0(), Box::new(p.clone())).normalized());
                 }
             }
+            // a task that spawns an emitting child and suspends in the same poll without emitting itself
+            for q in [
+                P::SpawnEvent(s0(), s0()),
+                P::All(vec![P::SpawnEvent(s0(), s0()), P::Burst(s0(), s0())]),
+                P::MapEvent(Box::new(P::SpawnEvent(s0(), s0()))),
+                P::then(P::Req(s0()), P::SpawnEvent(s0(), s0())),
+                P::Trigger(s0(), Box::new(P::SpawnEvent(s0(), s0()))),
+                P::and(P::Stream(s0()), P::SpawnEvent(s0(), s0())),
+            ] {
+                bp.push(q.normalized());
+            }
             bp.sort();
             bp.dedup();
             let mut v = vec![];
@@ -400,6 +411,13 @@ fn suites_tree(id: &str, tier: Tier) -> Vec<Suite> {
             v.push(Suite { name: "mixed-legacy+command", host: HostKind::Json, programs: mixed_programs(), bounds: bounds(tier.pick(6, 8), 0, 0, 1, 2) });
             for host in [HostKind::Bincode, HostKind::Json, HostKind::CoreCmd] {
                 v.push(Suite { name: "id-space-holes+batches", host, programs: registry_stress_programs(), bounds: bounds(tier.pick(6, 8), 0, 0, 0, 1) });
+            }
+            // the holder of a directly held command adds a task with `Command::spawn`, at any point of the
+            // history - also after the command has finished (a stream host polls again afterwards)
+            for host in [HostKind::Direct, HostKind::StreamPoll] {
+                let mut b = bounds(tier.pick(6, 7), 0, 1, 1, 2);
+                b.max_spawn_more = tier.pick(1, 2);
+                v.push(Suite { name: "holder-spawns-more-work", host, programs: plain(2), bounds: b });
             }
             // a command hosted by a *task of another command* that drives it by hand
             for host in [HostKind::Direct, HostKind::StreamPoll] {
@@ -578,7 +596,7 @@ pub fn replay(path: &str) -> i32 {
     let history: Vec<Step> = serde_json::from_value(case["history"].clone()).unwrap();
     println!("replay: host {} program {:?}", host.name(), p);
     let mut chk = seqx::Checker::new(host, &p);
-    let b = Bounds { depth: 99, items_per_stream: 9, max_aborts: 9, max_silent: 9, max_late: 9, abort_before_start: true };
+    let b = Bounds { depth: 99, items_per_stream: 9, max_aborts: 9, max_silent: 9, max_late: 9, abort_before_start: true, max_spawn_more: 0 };
     let mut ex = Explorer::new(host, &p, &b);
     let mut hints = vec![];
     if host.is_core() {
